@@ -614,7 +614,7 @@ func genInproc(r *lib.Run) []string {
 	}
 	// checkRuleHashes
 	seen := map[string]bool{}
-	for i := 0; i < r.N(1500, 12000); i++ {
+	for i := 0; i < r.N(1500, 10000); i++ {
 		shape := lib.Pick(r.Rng, []string{"F", "F", "D", "D", "M", "N"})
 		l := r.Rng.Intn(len(letters))
 		c := mkContent(shape + letters[l:l+1])
@@ -1375,9 +1375,13 @@ func main() {
 	} else {
 		ops = genInproc(r)
 		g := &hgen{r: r.Rng, run: r, vg: &valueGen{r.Rng, r}}
-		for i := 0; i < r.N(36, 320); i++ {
+		for i := 0; i < r.N(36, 160); i++ {
 			ops = append(ops, g.history(4+r.Rng.Intn(5))...)
 		}
+	}
+	if os.Getenv("C35_GENONLY") != "" { // development aid: dump the generated op stream without executing it
+		must(os.WriteFile(filepath.Join(r.OutDir, "ops_gen.txt"), []byte(strings.Join(ops, "\n")+"\n"), 0o644))
+		return
 	}
 	segs := split(ops)
 	type segRes struct {
